@@ -195,11 +195,18 @@ static std::string runF(const std::vector<std::string> &ops)
 #endif  // C10_NO_FM
 
 #ifndef C10_NO_PO
+#ifndef C10_PUBLIC_ONLY
 struct PO : public utility::ParameterizedObject {
   using ParameterizedObject::findParam;
   using ParameterizedObject::params_begin;
   using ParameterizedObject::params_end;
 };
+#else
+// fallback build (-DC10_PUBLIC_ONLY), used when the build above no longer compiles against the tree (a protected member or
+// a Param field was renamed / removed): public interface only - results of every call plus WHICH names are present
+// (hasParam over the name alphabet); no order, stored values or query flags in the dump, no `add` operation
+typedef utility::ParameterizedObject PO;
+#endif
 // names 1..4 form a prefix chain ("a", "aa", "aaa", "aaaa": every name is a proper prefix of the later ones, so a
 // lookup that compares prefixes instead of whole names is visible); larger numbers give long heap-allocated names
 static long nameDec(const std::string &s) { return s[0] == 'a' ? (long)s.size() : std::stol(s.substr(1)); }
@@ -263,10 +270,22 @@ static void applyP(PO &po, const std::vector<std::string> &f, std::ostringstream
     else o << "val=" << Codec<Shadow>::dec(po.getParam<Shadow>(n, Codec<Shadow>::enc(d)));
   } else if (f[0] == "rm") { po.removeParam(nameEnc(std::stol(f[1]))); o << "ok"; }
   else if (f[0] == "reset") { po.resetAllParamQueryStatus(); o << "ok"; }
+#ifndef C10_PUBLIC_ONLY
   else if (f[0] == "add") { po.findParam(nameEnc(std::stol(f[1])), true); o << "ok"; }
+#endif
   else o << "badop";
 }
 
+#ifdef C10_PUBLIC_ONLY
+static void dumpP(PO &po, std::ostringstream &o)
+{
+  o << "[";
+  bool f1 = true;
+  for (long n = 1; n <= 7; ++n)
+    if (po.hasParam(nameEnc(n))) { o << (f1 ? "" : " ") << n; f1 = false; }
+  o << "]";
+}
+#else
 static void dumpP(PO &po, std::ostringstream &o)
 {
   o << "[";
@@ -289,6 +308,7 @@ static void dumpP(PO &po, std::ostringstream &o)
   }
   o << "]";
 }
+#endif
 
 static std::string runP(const std::vector<std::string> &ops)
 {
@@ -346,7 +366,7 @@ int main(int argc, char **argv)
 #ifndef C10_NO_PO
   initTxt();
 #endif
-#ifndef C10_NO_FM
+#if !defined(C10_NO_FM) && !defined(C10_FM_MIN)
   if (argc > 2 && std::string(argv[2]) == "--table") {
     if (mode == "fd") std::cout << Wide<float, KeyFD>::table() << "\n";
     else if (mode == "hi") std::cout << Wide<short, KeyHI>::table() << "\n";
@@ -366,11 +386,17 @@ int main(int argc, char **argv)
 #ifndef C10_NO_FM
     else if (kind == "F") {
       if (mode == "ii") std::cout << runF<int, int, KeyI>(ops) << "\n";
+#ifndef C10_FM_MIN      // fallback build: FlatMap<int,int> only, when another instantiation no longer compiles
       else if (mode == "ss") std::cout << runF<std::string, std::string, KeyS>(ops) << "\n";
       else if (mode == "if") std::cout << runF<int, float, KeyI>(ops) << "\n";
       else if (mode == "ih") std::cout << runF<int, Shadow, KeyI>(ops) << "\n";
       else std::cout << runF<std::string, std::vector<int>, KeyS>(ops) << "\n";
-    } else if (kind == "C") {          // "C <table> ops": the first token is the conversion table (for the model)
+#else
+      else std::cout << "\n";
+#endif
+    }
+#ifndef C10_FM_MIN
+    else if (kind == "C") {          // "C <table> ops": the first token is the conversion table (for the model)
       if (!ops.empty()) ops.erase(ops.begin());
       if (mode == "fd") std::cout << runF<float, int, Wide<float, KeyFD>>(ops) << "\n";
       else if (mode == "hi") std::cout << runF<short, int, Wide<short, KeyHI>>(ops) << "\n";
@@ -378,6 +404,7 @@ int main(int argc, char **argv)
       else if (mode == "sc") std::cout << runF<std::string, int, Wide<std::string, KeySC>>(ops) << "\n";
       else std::cout << "\n";
     }
+#endif
 #endif
 #ifndef C10_NO_PO
     else if (kind == "P") std::cout << runP(ops) << "\n";
